@@ -2,5 +2,6 @@ SPECIFICATION Spec
 CONSTANTS
   Defect = "wronggate"
   MaxChanges = 1
+  FocusKeys = {}
 INVARIANT GatedByOwnFlag
 CHECK_DEADLOCK FALSE
